@@ -150,9 +150,9 @@ static std::vector<std::string> hist_gen(const GenArgs &ga) {
     oracles = "res,layout,bytes,reuse,growth";
     faults = sw.chance(1, 5);
     bad_dir_pct = sw.chance(1, 4) ? 40 : 0;
-    cycles = sw.chance(1, 3) ? 3 : 1;
+    cycles = sw.chance(1, 3) ? 5 : 1;
     nops = 20 + (int)sw.below(thorough ? 181 : 101);
-    if (cycles > 1) nops = std::min(nops, 80);
+    if (cycles > 1) nops = std::min(nops, 60);
     maxlen = sw.chance(1, 2) ? 40 : 15;
     rawalloc = sw.chance(2, 3);
     // a tenth of the histories keep the backing files (ORC_CODE=debug): frees are then documented no-ops, so
@@ -167,7 +167,7 @@ static std::vector<std::string> hist_gen(const GenArgs &ga) {
     orc_code = codes[sw.below(7)];
     faults = sw.chance(1, 4);
     bad_dir_pct = faults ? 30 : 0;
-    cycles = 3 + (int)sw.below(2);
+    cycles = 5;
     nops = 8 + (int)sw.below(thorough ? 73 : 43);
     maxlen = 14;
     mix = {{"new", 14}, {"compile", 24}, {"take", 9}, {"run", 14}, {"runc", 9}, {"freep", 9}, {"freec", 7},
@@ -177,7 +177,7 @@ static std::vector<std::string> hist_gen(const GenArgs &ga) {
       // allocator-churn member: many small functions handed out and freed in arbitrary order, so that chunks are
       // split between live neighbours and merged in both directions while code objects outlive their programs
       nops = 40 + (int)sw.below(thorough ? 81 : 41);
-      cycles = 3;
+      cycles = 5;
       maxlen = 8;
       mix = {{"new", 16}, {"compile", 26}, {"take", 18}, {"runc", 10}, {"freep", 12}, {"freec", 16}, {"run", 4}, {"rawalloc", 6}};
     }
@@ -412,7 +412,8 @@ struct Func {  // placement of a live native function
   bool exec_ok = true;  // false: code for a backend this CPU cannot execute (only emulation is legal)
   std::string target;   // what it was compiled for
   unsigned long fmask = 0xffffffffUL;
-  int region = -1, offset = 0, size = 0;
+  int region = -1, offset = 0, size = 0;   // where it was when it was recorded (for the log)
+  const uint8_t *wptr = nullptr, *eptr = nullptr;   // its addresses: what a live function keeps (regions may come and go)
   std::vector<uint8_t> snap;
 };
 
@@ -656,6 +657,8 @@ static void record_fn(State &st, Func &fn, OrcCode *code) {
   fn.native = true;
   fn.region = r;
   fn.offset = off;
+  fn.wptr = (const uint8_t *)code->code;
+  fn.eptr = (const uint8_t *)code->exec;
   fn.size = code->code_size;
   fn.snap.assign(code->code, code->code + code->code_size);
   int re, offe;
@@ -679,7 +682,16 @@ static void check_after_op(State &st, const Layout *before, bool was_alloc_op, c
     // live functions: inside one region, pairwise disjoint, chunk used and large enough
     struct Iv { int region, lo, hi; int id; };
     std::vector<Iv> ivs;
-    auto add = [&](const Func &fn, int id) { if (fn.native) ivs.push_back({fn.region, fn.offset, fn.offset + std::max(fn.size, 1), id}); };
+    // (a live function is known by its addresses; which region of the current table holds them is looked up now)
+    auto add = [&](const Func &fn, int id) {
+      if (!fn.native) return;
+      int r = -1, off = 0, re = -1, offe = 0;
+      if (!l.locate(fn.wptr, r, off) || !l.locate_exec(fn.eptr, re, offe) || r != re || off != offe) {
+        c.violation("layout", "function-outside-region", strf("live function %d (recorded at region %d offset %d, %d bytes) is not inside any region any more", id, fn.region, fn.offset, fn.size));
+        return;
+      }
+      ivs.push_back({r, off, off + std::max(fn.size, 1), id});
+    };
     for (auto &p : st.progs) add(p.fn, p.id);
     for (auto &co : st.codes) add(co.fn, co.id);
     for (auto &iv : ivs) {
@@ -703,9 +715,10 @@ static void check_after_op(State &st, const Layout *before, bool was_alloc_op, c
   }
   if (st.O("bytes")) {
     auto chk = [&](const Func &fn, int id) {
-      if (!fn.native || fn.region >= (int)l.regions.size()) return;
-      const uint8_t *w = l.regions[fn.region].write_ptr + fn.offset;
-      const uint8_t *e = l.regions[fn.region].exec_ptr + fn.offset;
+      int r = -1, off = 0;
+      if (!fn.native || !l.locate(fn.wptr, r, off) || off + (int)fn.snap.size() > l.regions[r].size) return;   // (reported by the layout oracle)
+      const uint8_t *w = fn.wptr;
+      const uint8_t *e = fn.eptr;
       if (memcmp(w, fn.snap.data(), fn.snap.size()) || memcmp(e, fn.snap.data(), fn.snap.size())) {
         size_t k = 0;
         while (k < fn.snap.size() && w[k] == fn.snap[k] && e[k] == fn.snap[k]) k++;
@@ -720,13 +733,30 @@ static void check_after_op(State &st, const Layout *before, bool was_alloc_op, c
       // which chunk size did the allocator actually take for this function?
       int got = 0;
       for (auto &ch : l.regions[newfn->region].chunks) if (ch.offset == newfn->offset) got = ch.size;
-      for (size_t ri = 0; ri < before->regions.size(); ri++)
-        for (auto &ch : before->regions[ri].chunks)
-          if (!ch.used && got > 0 && ch.size >= got) {
+      // free space is judged as the property states it - "coalesced and reused": a run of adjacent free chunks is
+      // one piece of free memory, whether the allocator merges eagerly or when it next looks
+      for (size_t ri = 0; ri < before->regions.size(); ri++) {
+        int run = 0;
+        for (auto &ch : before->regions[ri].chunks) {
+          run = ch.used ? 0 : run + ch.size;
+          if (got > 0 && run >= got) {
             c.count("probe.new_region");
-            c.violation("reuse", "new-region-despite-fit", strf("a new region was created for a %d-byte chunk although region %zu had a free chunk of %d bytes", got, ri, ch.size));
+            c.violation("reuse", "new-region-despite-fit", strf("a new region was created for a %d-byte chunk although region %zu had %d contiguous free bytes", got, ri, run));
+            break;
           }
+        }
+      }
       c.count("probe.new_region");
+    }
+  }
+  if (st.O("reuse") && before && !st.debug_mode && l.regions.size() > before->regions.size()) {
+    for (size_t ri = 0; ri < before->regions.size(); ri++) {
+      bool all_free = true;
+      for (auto &ch : before->regions[ri].chunks) if (ch.used) all_free = false;
+      if (all_free) {
+        c.violation("reuse", "new-region-despite-free-region", strf("a new region was created although region %zu was entirely free (a new region cannot hold more than a free one)", ri));
+        break;
+      }
     }
   }
   // A descriptor may legitimately be kept for as long as a mapping made from it lives (bounded by the number
@@ -1325,8 +1355,19 @@ static void hist_run(const std::vector<std::string> &plan, Child &c) {
           // after "free everything" every region must be one free chunk again
           Layout l2;
           walk_codemem(l2);
-          if (l2.used_chunks() != 0 || l2.total_chunks() != (int)l2.regions.size())
-            c.violation("growth", "not-coalesced-after-free-all", strf("%d regions, %d chunks, %d used after everything was freed", (int)l2.regions.size(), l2.total_chunks(), l2.used_chunks()));
+          if (l2.used_chunks() != 0)
+            c.violation("growth", "used-chunk-after-free-all", strf("%d regions, %d chunks, %d used after everything was freed", (int)l2.regions.size(), l2.total_chunks(), l2.used_chunks()));
+          if (!l2.regions.empty()) {
+            // behavioural form of "coalesced": a whole-region request is served from what is there
+            OrcCode *probe = orc_code_new();
+            orc_code_allocate_codemem(probe, 65536);
+            Layout l3;
+            walk_codemem(l3);
+            if (l3.regions.size() > l2.regions.size() || !probe->chunk)
+              c.violation("growth", "not-coalesced-after-free-all", strf("after everything was freed (%zu regions, %d chunks) a whole-region request %s", l2.regions.size(), l2.total_chunks(),
+                                                                          probe->chunk ? "needed a new region" : "was refused"));
+            orc_code_free(probe);
+          }
           if (l2.regions.size() > 6)
             c.violation("growth", "regions-grow-over-sequences", strf("%zu regions after enumerated sequences that never need more than 6 at once", l2.regions.size()));
         }
@@ -1500,16 +1541,38 @@ static void hist_run(const std::vector<std::string> &plan, Child &c) {
       if (st.O("growth") && !st.debug_mode) {
         if (cs.used != 0)
           c.violation("growth", "used-chunk-after-free-all", strf("%d chunk(s) still marked used after every code object was freed", cs.used));
-        if (st.O("layout") && cs.chunks != cs.regions)
-          c.violation("growth", "not-coalesced-after-free-all", strf("%d regions but %d chunks after everything was freed", cs.regions, cs.chunks));
+        if (st.O("layout") && cs.regions > 0 && fs::enabled()) {
+          // everything is free again: a request for a whole region must be served from what is there
+          // (behavioural form of "released memory is coalesced"; how many list nodes describe it is not the point)
+          OrcCode *probe = orc_code_new();
+          fs::begin_op({});
+          orc_code_allocate_codemem(probe, 65536);
+          fs::end_op();
+          Layout l3;
+          walk_codemem(l3);
+          if ((int)l3.regions.size() > cs.regions || !probe->chunk)
+            c.violation("growth", "not-coalesced-after-free-all", strf("after everything was freed (%d regions, %d chunks) a whole-region request %s", cs.regions, cs.chunks,
+                                                                        probe->chunk ? "needed a new region" : "was refused"));
+          orc_code_free(probe);
+        }
       }
     }
   }
   if (st.O("growth") && !st.debug_mode) {
+    // "never grows without bound": a placement policy may need a region more in one cycle than in the one before
+    // (bounded drift); what is reported is a region count that went up after *every* one of at least three
+    // consecutive identical cycles (the first cycle is warm-up)
+    if (!st.faults_in_plan && cstats.size() >= 5) {
+      bool every = true;
+      for (size_t i = 2; i < cstats.size(); i++) if (cstats[i].regions <= cstats[i - 1].regions) every = false;
+      if (every) {
+        std::string seq;
+        for (auto &cs2 : cstats) seq += strf("%s%d", seq.empty() ? "" : ", ", cs2.regions);
+        c.violation("growth", "regions-grow-per-cycle", strf("identical fault-free cycles left %s regions: one more after every cycle", seq.c_str()));
+      }
+    }
     for (size_t i = 2; i < cstats.size(); i++) {
       auto &a = cstats[i - 1], &b = cstats[i];
-      if (!st.faults_in_plan && b.regions != a.regions)
-        c.violation("growth", "regions-grow-per-cycle", strf("identical fault-free cycle %zu left %d regions, cycle %zu left %d", i - 1, a.regions, i, b.regions));
       if (st.O("heap") && a.regions == b.regions && (a.bytes != b.bytes || a.blocks != b.blocks)) {
         long db = (long)b.bytes - (long)a.bytes, dk = (long)b.blocks - (long)a.blocks;
         // key: leak size class, so that different leaks are different findings
